@@ -141,11 +141,19 @@ def Hist.afterStep (h : Hist) (s : Step) : Hist :=
     | .state st => { h with gwState := st, asleep := st == .asleep }
     | .reg l => { h with gwReg := l }
     | .buf l =>
+      -- the queue only grows (or starts again after a flush): what is new in it has been issued now
+      let fresh := if l.take h.gwBuf.length == h.gwBuf then l.drop h.gwBuf.length else l
       let h := { h with gwBuf := l }
       -- REGISTERs queued for the sleeping client are REGISTERs the gateway issued
-      l.foldl (fun h b => match decode b with
+      let h := l.foldl (fun h b => match decode b with
         | .ok (_, .register tid mid name) =>
           if h.gwRegisters.contains (mid, tid, name) then h else { h with gwRegisters := (mid, tid, name) :: h.gwRegisters }
+        | _ => h) h
+      -- a REGISTER issued again (a later exchange for the same name has the same TopicID and may have the
+      -- same message ID) is the one a REGACK with its message ID answers from now on
+      fresh.foldl (fun h b => match decode b with
+        | .ok (_, .register tid mid name) =>
+          { h with gwRegisters := (mid, tid, name) :: h.gwRegisters.erase (mid, tid, name) }
         | _ => h) h
     | .sn b => (match decode b with
       | .ok (_, .connack rc) => if rc == 0 then { h with clientConnacked := true } else h
@@ -932,8 +940,17 @@ def c34 (cfg : Cfg) (tr : List TE) (tEnd : Nat) : List Viol :=
     let brokerIn : List Nat := tr.filterMap fun e => match e with | .inp t (.mq _) => some t | _ => none
     let own := late.filter fun (t, _) => !brokerIn.contains t
     let _ := tEnd
+    -- (known finding) the pinger of an EARLIER sleep announcement is neither stopped by a CONNECT nor replaced by a
+    -- later DISCONNECT: it pings until the end of the period it was started for
+    let staleEnd := (cds.filterMap fun (t, p) => match p with
+      | .disconnect d => if d != 0 then some (t + d.toNat * 1000) else none
+      | _ => none).foldl max 0
     match own.head? with
-    | some (t, _) => [{ sig := "broker-kept-alive-for-a-vanished-client", detail := s!"client silent since t={tv}, packet to the broker at t={t}" }]
+    | some (t, p) =>
+      let stale := p == MqPkt.pingreq && t ≤ staleEnd && own.all fun (t2, p2) => p2 == MqPkt.pingreq && t2 ≤ staleEnd
+      [{ sig := if stale then "broker-kept-alive-for-a-vanished-client/pinger-of-an-earlier-sleep-still-running"
+                else "broker-kept-alive-for-a-vanished-client",
+         detail := s!"client silent since t={tv}, packet to the broker at t={t}" }]
     | none => []
 
 end Bisquitt.Spec
